@@ -32,7 +32,13 @@ struct TaskRec {
   bool dtorReturned = false;
   bool detached = false;
   double firstCallAt = -1;
+  char in = 0;      // C10: what the functor captured; written before schedule(), read by every invocation
+  char out[8] = {}; // C10: what invocation k produced; read by the owner once the task's destructor returned
 };
+static void observeOutputs(TaskRec& r) {
+  for (int k = 0; k < 8 && k < r.calls; ++k)
+    raceR(&r.out[k], "timed-task-output");
+}
 
 static std::vector<TaskRec>* g_recs;
 
@@ -51,6 +57,8 @@ static bool body(int idx) {
   }
   r.inBody++;
   r.calls++;
+  raceR(&r.in, "timed-task-capture");
+  raceW(&r.out[(r.calls - 1) & 7], "timed-task-output");
   if (r.firstCallAt < 0)
     r.firstCallAt = now;
   sim_event(7, idx, r.calls);
@@ -120,6 +128,7 @@ static void wlTimed() {
       sim_note("period_us", (int64_t)(period * 1e6));
       sim_note("delay_us", (int64_t)(delay * 1e6));
       r.firstRunAbs = dispenso::getTime() + delay;
+      raceW(&r.in, "timed-task-capture");
       auto fn = [i]() { return body(i); };
       auto type = steady ? dispenso::TimedTaskType::kSteady : dispenso::TimedTaskType::kNormal;
       // (NewThreadInvoker cannot be used with TimedTask: its schedule() does not accept the
@@ -157,6 +166,7 @@ static void wlTimed() {
           snprintf(cls, sizeof cls, "%s:destructor-returned-during-invocation", schedName(r.sched));
           sim_fail(cls, "~TimedTask returned while %d invocation(s) are in progress", r.inBody);
         }
+        observeOutputs(r);
       } else if (a.kind == 3) {
         r.detached = true;
         tasks[(size_t)i]->detach();
@@ -175,6 +185,7 @@ static void wlTimed() {
           snprintf(cls, sizeof cls, "%s:destructor-returned-during-invocation", schedName(r.sched));
           sim_fail(cls, "~TimedTask returned while %d invocation(s) are in progress", r.inBody);
         }
+        observeOutputs(r);
       }
     }
     // detached tasks may still be running; cancel is impossible now, so bound them by run count
